@@ -34,7 +34,8 @@ func AddMacro(macro string, expanded string) map[string]string {
 
 // ExpandMacro expands the macros in a given query, if there are any.
 // It uses a lookahead regular expression to ignore the occurences
-// of the macro inside the string literals, and only replaces a macro name that
+// of the macro inside the string literals (a backslash escapes the character after
+// it, so `\"` does not end a literal), and only replaces a macro name that
 // stands alone: not a part of a longer identifier or of a dotted path.
 func ExpandMacros(query string) (string, error) {
 	var err error
@@ -54,7 +55,7 @@ func ExpandMacros(query string) (string, error) {
 	})
 
 	for _, pair := range slice {
-		regex := regexp2.MustCompile(fmt.Sprintf(`(?<![\w.])(%s)(?![\w.])(?=(?:[^"]|"[^"]*")*$)`, pair.Macro), regexp2.None)
+		regex := regexp2.MustCompile(fmt.Sprintf(`(?<![\w.])(%s)(?![\w.])(?=(?:[^"\\]|\\.|"(?:[^"\\]|\\.)*")*$)`, pair.Macro), regexp2.None)
 		query, err = regex.Replace(query, pair.Expanded, -1, -1)
 		if err != nil {
 			return query, err
